@@ -16,7 +16,7 @@ def tla_prog(prog):
 
 
 def model(wd, name, msgs, prog, cap=2, drain_one=False, level_blind=False, export=False, simulate=None, depth=None,
-          tlcseed=None, liveness=True, workers=8, timeout=3000):
+          tlcseed=None, liveness=True, workers=8, timeout=3000, crashers=(), stop_after_torn=False, senders_first=False):
     mod = "R_" + name.replace("-", "_")
     with open(os.path.join(wd, mod + ".tla"), "w") as f:
         f.write("---- MODULE %s ----\nEXTENDS MCReceiverSet\nMCMsgs == %s\nMCProg == %s\n====\n" % (
@@ -24,10 +24,13 @@ def model(wd, name, msgs, prog, cap=2, drain_one=False, level_blind=False, expor
     cfg = os.path.join(wd, mod + ".cfg")
     with open(cfg, "w") as f:
         f.write("SPECIFICATION %s\nCONSTANTS\n  Members = {%s}\n  MMsgs <- MCMsgs\n  Prog <- MCProg\n  Cap = %d\n"
-                "  DrainOne = %s\n  LevelBlindAdd = %s\nINVARIANTS %s %s\n%s%s\n" % (
+                "  DrainOne = %s\n  LevelBlindAdd = %s\n  Crashers = {%s}\n  StopAfterTorn = %s\n  SendersFirst = %s\n"
+                "INVARIANTS %s %s\n%s%s\n" % (
                     "FairSpec" if (liveness and not simulate) else "Spec",
                     ", ".join(str(i + 1) for i in range(len(msgs))), cap,
-                    "TRUE" if drain_one else "FALSE", "TRUE" if level_blind else "FALSE", INV,
+                    "TRUE" if drain_one else "FALSE", "TRUE" if level_blind else "FALSE",
+                    ", ".join(map(str, crashers)), "TRUE" if stop_after_torn else "FALSE",
+                    "TRUE" if senders_first else "FALSE", INV,
                     "Export" if export else "",
                     "PROPERTIES Completes\n" if (liveness and not simulate) else "",
                     "" if (export or simulate) else "VIEW View"))
@@ -84,13 +87,19 @@ def judge(case, v):
         per.setdefault(m, []).append(e)
         if e["t"] == "msg" and (e["m"] != m or not e["intact"]):
             return "message of member %s reported under the id of member %s (or altered): %s" % (e["m"], m, e), v.get("matched")
+    killed = {s["a"] for s in case["sched"] if s["k"] == "kill"}
     for m, nmsgs in enumerate([len(x) for x in case["msgs"]], 1):
         if m not in ids.values():
             continue
         evs = per.get(m, [])
         want = [("msg", x) for x in range(1, nmsgs + 1)] + [("closed", None)]
         got = [(e["t"], e.get("x")) for e in evs]
-        if got != want:
+        if m in killed:
+            # the killed sender's completed messages, in order, then exactly one closed event
+            k = len(got) - 1
+            if not got or got[-1] != ("closed", None) or got[:-1] != want[:k] or k > nmsgs:
+                return "member %d (sender killed): events %s" % (m, got), v.get("matched")
+        elif got != want:
             return "member %d: events %s, expected %s" % (m, got, want), v.get("matched")
     if v.get("matched"):
         mlog = [(e["t"], e["id"] - 1, e["x"] if e["t"] == "msg" else None) for e in case["log"]]
@@ -110,7 +119,8 @@ def campaign(pid, plans):
     rnd = random.Random(seed())
     for pl in plans:
         t0 = time.time()
-        kw = dict(msgs=pl["msgs"], prog=pl["prog"])
+        kw = dict(msgs=pl["msgs"], prog=pl["prog"], crashers=pl.get("crashers", ()),
+                  senders_first=pl.get("senders_first", False))
         for cap in pl.get("caps", (1, 2)):
             r = model(wd, "%s-mc-cap%d" % (pl["name"], cap), cap=cap, liveness=pl.get("liveness", True), **kw)
             require_ok(r, "ReceiverSet " + pl["name"])
@@ -135,8 +145,8 @@ def campaign(pid, plans):
                     sch.append(json.loads(line[2:]))
         if pl.get("limit") and len(sch) > pl["limit"]:
             sch = rnd.sample(sch, pl["limit"])
-        cases = [{"msgs": pl["msgs"], "prog": pl["prog"], "sched": s["sched"], "log": s["log"], "selects": s["selects"]}
-                 for s in sch]
+        cases = [{"msgs": pl["msgs"], "prog": pl["prog"], "sched": s["sched"], "log": s["log"], "selects": s["selects"],
+                  "procs": list(pl.get("crashers", ()))} for s in sch]
         verdicts = replay(cases)
         nbad = 0
         for c, v in zip(cases, verdicts):
